@@ -28,7 +28,7 @@ from harness import core, fsbox, sched, tlc
 from checks import loader_common as lc
 
 SCENARIOS = ['main_edit_dir_override', 'dir_edit', 'defaults_permissive', 'deprecated', 'alias_eval', 'dir_edit_linked', 'merge_mode_dir_edit',
-             'empty_main_dir_edit', 'defaults_override_removed']
+             'empty_main_dir_edit', 'defaults_override_removed', 'dir_two_files']
 MERGE_MODE = {'merge_mode_dir_edit'}
 NAMES = ['n', 'm', 'o', 'u', 'default']
 ROLES = ['a', 'b', 'd1r', 'd2r', 'dflt', 'old', 'nobody']
@@ -77,6 +77,8 @@ def scenario_files(sc):
         return {'main': {'o': R('a')}}, {'main': {'o': R('b')}}
     if sc == 'dir_edit_linked':
         return {'main': {'u': R('a')}, 'd1/a': {'n': ALIAS_M, 'm': R('a')}}, {'d1/a': {'m': R('b'), 'n': ALIAS_O, 'o': R('a')}}
+    if sc == 'dir_two_files':
+        return {'main': {'n': R('a'), 'm': R('a')}, 'd1/a': {'n': R('d1r')}, 'd1/b': {'m': R('b')}}, {'d1/b': {'m': R('d2r')}}
     if sc == 'defaults_override_removed':
         return {'main': {'default': ANY, 'n': R('a')}}, {'main': {'default': ANY}}
     if sc == 'empty_main_dir_edit':
@@ -298,6 +300,42 @@ def schedule_BA_parked(sc, rng, j, k, q, role, phase):
     return case
 
 
+def schedule_AB_parked(sc, rng, k, j, q, role):
+    """edit; A (reloads, decides for ``role``) parks at line k; B (started after the edit as well) runs until
+    its line j and parks there (or finishes); A resumes and decides; B resumes.  The decision of the call
+    that was suspended FIRST is the one observed."""
+    env = Env(sc, rng)
+    case = {'shape': 'AB_parked', 'q': q, 'role': role, 'allow': 0, 'crashed': 0, 'rules': [], 'frules': [], 'final': {n: [] for n in NAMES},
+            'roles': ROLES, 'check_final': 1, '_k': k, '_j': j}
+    try:
+        env.do_edit()
+        a = sched.TracedCall(core.REPO, k, lambda: env.e.enforce(q, {}, {'roles': [role]}))
+        if not a.start_and_wait():
+            a.join()
+            return None
+        b = sched.TracedCall(core.REPO, j, lambda: env.e.enforce(q, {}, {'roles': ['nobody']}))
+        b_parked = b.start_and_wait()
+        case['rules'], case['frules'] = env.project()
+        case['_extra'] = env.extra()
+        case['_where'] = (a.p.where, b.p.where if b_parked else 'finished')
+        a.resume()
+        finished = a.join(1.5)
+        if b_parked:
+            b.resume()
+        b.join()
+        a.join()
+        if b.exc or a.exc:
+            case['crashed'] = 1
+            case['_exc'] = a.exc or b.exc
+        else:
+            case['allow'] = 1 if a.result else 0
+        case['_a_blocked'] = not finished
+        case['final'] = env.final()
+    finally:
+        env.close()
+    return case
+
+
 def judge(sc, cases, invariant):
     import json
     import re
@@ -357,7 +395,8 @@ def run(ctx):
                 'dir_edit_linked': [('n', 'a'), ('n', 'b'), ('m', 'a')],
                 'merge_mode_dir_edit': [('n', 'a'), ('n', 'd1r'), ('n', 'd2r')],
                 'empty_main_dir_edit': [('n', 'd1r'), ('n', 'd2r'), ('n', 'dflt')],
-                'defaults_override_removed': [('n', 'nobody'), ('n', 'a'), ('n', 'dflt'), ('u', 'nobody')]}[sc]
+                'defaults_override_removed': [('n', 'nobody'), ('n', 'a'), ('n', 'dflt'), ('u', 'nobody')],
+                'dir_two_files': [('n', 'a'), ('n', 'd1r'), ('m', 'a'), ('m', 'b'), ('m', 'd2r')]}[sc]
         # park points: in the quick tier those line events of the reloading call at which the shared
         # store (contents, file-rule record, default rule) has just changed - every distinct window is
         # visited once - plus a regular sample; in the thorough tier every line event
@@ -402,6 +441,19 @@ def run(ctx):
                     if k > na:
                         continue
                     c = schedule_BA_parked(sc, rng, j, k, qn, role, phase)
+                    if c:
+                        cases.append(c)
+        # two reloaders: A parked inside its reload, B (which may start a reload of its own) parked inside
+        # its call, A finishes on whatever B left - A's decision is observed
+        # (A is parked only where its OWN reload has already changed the shared store: before that the
+        #  schedule is the A_parked shape with the roles of the two calls exchanged)
+        own = change_points[1:]
+        cps = sorted(set(own) | {c_ + 1 for c_ in own})
+        cps = [k for k in cps if 1 <= k <= na]
+        for qn, role in (asks[:2] if q else asks):
+            for k in (cps if not q else cps[::2]):
+                for j in (cps if not q else cps[::3]):
+                    c = schedule_AB_parked(sc, rng, k, j, qn, role)
                     if c:
                         cases.append(c)
         n_sched += len(cases)
